@@ -8,8 +8,8 @@ for every state — a snapshot is produced only by a leader from the prefix of i
 index it has committed; it is installed only if it was released for the receiver's current term and
 is not behind the receiver's commit index, and then log and commit index are exactly the snapshot's;
 a snapshot whose (index, term) matches the local log only advances the commit index and changes
-nothing else (`C15_fastforward_discards_nothing`) — and, for every reachable state under a fixed
-configuration, that **every released snapshot prefix is consistent with every log in the system**
+nothing else (`C15_fastforward_discards_nothing`) — and, for every reachable state of every history
+(membership changes included), that **every released snapshot prefix is consistent with every log in the system**
 (Log Matching extends to snapshots, `C15_snapshot_consistent`), so an installed snapshot is the log a
 node would have had by replication.
 
@@ -88,18 +88,18 @@ theorem C15_fastforward_discards_nothing (s s' : PSys) (i t idx sterm : Nat)
 prefix and any list of entries in the system (a node's volatile or durable log, another snapshot,
 an acknowledged prefix, a leader's log) hold an entry with the same index and term, they agree up
 to that index. -/
-theorem C15_snapshot_consistent (c0 : Cfg) (hne : c0.incoming ≠ [] ∨ c0.outgoing ≠ []) (s : PSys)
-    (hr : ReachC c0 s) (m : Snap) (hm : m ∈ s.snaps) (l : List LEntry) (hl : listsOf s l) (k : Nat)
+theorem C15_snapshot_consistent (s : PSys)
+    (hr : Reach s) (m : Snap) (hm : m ∈ s.snaps) (l : List LEntry) (hl : listsOf s l) (k : Nat)
     (x y : LEntry) (hx : m.pre[k]? = some x) (hy : l[k]? = some y) (ht : x.term = y.term) :
     m.pre.take (k + 1) = l.take (k + 1) :=
-  logMatching_of_invL (invL_reach c0 hne s hr) m.pre l
+  logMatching_of_invL (invL_reachR s hr) m.pre l
     (listsOf_snap s m hm) hl k x y hx hy ht
 
 /-- a released snapshot is a prefix of the ghost log of its term: the state it carries is the state
 of a node that applied the log of that term's leader up to the snapshot index -/
-theorem C15_snapshot_entries_bounded (c0 : Cfg) (hne : c0.incoming ≠ [] ∨ c0.outgoing ≠ []) (s : PSys)
-    (hr : ReachC c0 s) (m : Snap) (hm : m ∈ s.snaps) : ∀ e ∈ m.pre, 1 ≤ e.term ∧ e.term ≤ m.term := by
-  have I := invL_reach c0 hne s hr
+theorem C15_snapshot_entries_bounded (s : PSys)
+    (hr : Reach s) (m : Snap) (hm : m ∈ s.snaps) : ∀ e ∈ m.pre, 1 ≤ e.term ∧ e.term ≤ m.term := by
+  have I := invL_reachR s hr
   intro e he
   have hp : PFL s.llog m.pre := I.pfl _ (listsOf_snap s m hm)
   exact ⟨pfl_term_pos I hp he, I.stle m hm e he⟩
@@ -108,23 +108,23 @@ theorem C15_snapshot_entries_bounded (c0 : Cfg) (hne : c0.incoming ≠ [] ∨ c0
 snapshot index holds exactly the snapshot's prefix — so installing it gives a node the log (hence,
 for a deterministic application, the state and the configuration) it would have reached by
 replication -/
-theorem C15_snapshot_is_committed_prefix (c0 : Cfg) (hne : c0.incoming ≠ [] ∨ c0.outgoing ≠ []) (s : PSys)
-    (hr : ReachC c0 s) (m : Snap) (hm : m ∈ s.snaps) (i : Nat) (hi : m.idx ≤ (s.nodes i).commit) :
+theorem C15_snapshot_is_committed_prefix (s : PSys)
+    (hr : Reach s) (m : Snap) (hm : m ∈ s.snaps) (i : Nat) (hi : m.idx ≤ (s.nodes i).commit) :
     (s.nodes i).log.take m.idx = m.pre := by
-  have I := invAll_reach c0 hne s hr
+  have I := invAll_reachR s hr
   exact snapshot_committed I.b I.c m hm i hi
 
 /-- every entry inside a released snapshot is a committed entry (C01's committed log) -/
-theorem C15_snapshot_entries_committed (c0 : Cfg) (hne : c0.incoming ≠ [] ∨ c0.outgoing ≠ []) (s : PSys)
-    (hr : ReachC c0 s) (m : Snap) (hm : m ∈ s.snaps) (k : Nat) (hk : 0 < k) (hi : k ≤ m.idx) :
+theorem C15_snapshot_entries_committed (s : PSys)
+    (hr : Reach s) (m : Snap) (hm : m ∈ s.snaps) (k : Nat) (hk : 0 < k) (hi : k ≤ m.idx) :
     ∃ e, m.pre[k - 1]? = some e ∧ Committed s k e := by
-  have I := invAll_reach c0 hne s hr
+  have I := invAll_reachR s hr
   exact snapshot_is_committed I.b I.c m hm k hk hi
 
-/-- the statement with the voter configuration changing along the history — not proved -/
-def C15_full_statement : Prop :=
-  ∀ (s : PSys), Reach s → ∀ m ∈ s.snaps, ∀ i,
-    m.idx ≤ (s.nodes i).commit → (s.nodes i).log.take m.idx = m.pre
+/-- the statement of the earlier rounds (`C15_full_statement`) is now a theorem -/
+theorem C15_full : ∀ (s : PSys), Reach s → ∀ m ∈ s.snaps, ∀ i,
+    m.idx ≤ (s.nodes i).commit → (s.nodes i).log.take m.idx = m.pre :=
+  fun s hr m hm i hi => C15_snapshot_is_committed_prefix s hr m hm i hi
 
 /-! ### non-vacuity: a lagging follower installs a snapshot of the leader's committed prefix -/
 
